@@ -42,3 +42,17 @@ package cashu
 //@   safety C06
 //@   ensures @wrapsum result == sum.sig.amount(seq(bs), len(bs)) % 18446744073709551616
 //@   loop range(bs) invariant 0 <= i && i <= len(bs) && totalAmount == sum.sig.amount(seq(bs), i) % 18446744073709551616
+
+//@ func CheckDuplicateBlindedMessages
+//@   tags C06 C20 C02 C03
+//@   safety C06
+//@   ensures @nodup !result ==> (forall i, j :: 0 <= i && i < j && j < len(bms) ==> bms[i].B_ != bms[j].B_)
+//@   ensures @dup result ==> (exists i, j :: 0 <= i && i < j && j < len(bms) && bms[i].B_ == bms[j].B_)
+//@   loop range(bms) invariant 0 <= i && i <= len(bms) && (forall j :: 0 <= j && j < i ==> (bms[j].B_ in B_s) && B_s[bms[j].B_]) && (forall k Str :: (k in B_s) ==> (exists j :: 0 <= j && j < i && bms[j].B_ == k)) && (forall a, b :: 0 <= a && a < b && b < i ==> bms[a].B_ != bms[b].B_)
+
+//@ func CheckDuplicateProofs
+//@   tags C01 C06 C20
+//@   safety C06
+//@   ensures @nodup !result ==> (forall i, j :: 0 <= i && i < j && j < len(proofs) ==> proofs[i].Secret != proofs[j].Secret)
+//@   ensures @dup result ==> (exists i, j :: 0 <= i && i < j && j < len(proofs) && proofs[i].Secret == proofs[j].Secret)
+//@   loop range(proofs) invariant 0 <= i && i <= len(proofs) && (forall j :: 0 <= j && j < i ==> (proofs[j].Secret in secrets) && secrets[proofs[j].Secret]) && (forall k Str :: (k in secrets) ==> (exists j :: 0 <= j && j < i && proofs[j].Secret == k)) && (forall a, b :: 0 <= a && a < b && b < i ==> proofs[a].Secret != proofs[b].Secret)
